@@ -509,7 +509,15 @@ func (fc *FnCtx) checkPost(st *State, at ast.Node) {
 	if tags := fc.contract.Opts["scan-complete"]; tags != "" {
 		for i, rec := range st.scans {
 			f := fc.readKey(st, rec+".failed", types.Typ[types.Bool])
-			fc.oblige(st, fmt.Sprintf("scan-complete#%d", i), "scan-complete", strings.Fields(tags), not(f.T),
+			goal := not(f.T)
+			// a failure that is reported through an error result is loud enough
+			for ri, k := range fc.resultKeys {
+				if rt := fc.sig.Results().At(ri).Type(); isErrorType(rt) {
+					ev := fc.readKey(st, k, rt)
+					goal = "(or " + goal + " (not (= " + ev.T + " 0)))"
+				}
+			}
+			fc.oblige(st, fmt.Sprintf("scan-complete#%d", i), "scan-complete", strings.Fields(tags), goal,
 				"scanner stopped only at end of input, or its error was reported", nil)
 		}
 	}
@@ -625,6 +633,12 @@ func (fc *FnCtx) runLoop(st *State, lp loopParts) []Outcome {
 	}
 	// 2. modified set by dry run
 	iter := func(s *State, check bool) (exit *State, outs []Outcome) {
+		var m0 []string
+		if check {
+			for _, cl := range decs {
+				m0 = append(m0, trClause(s, cl))
+			}
+		}
 		ct, couts := lp.cond(s)
 		outs = append(outs, couts...)
 		if k, ok := fc.takeOutcome(s); ok {
@@ -634,12 +648,6 @@ func (fc *FnCtx) runLoop(st *State, lp loopParts) []Outcome {
 		exit.addAssume(not(ct))
 		b := s
 		b.addAssume(ct)
-		var m0 []string
-		if check {
-			for _, cl := range decs {
-				m0 = append(m0, trClause(b, cl))
-			}
-		}
 		if lp.pre != nil {
 			lp.pre(b)
 		}
